@@ -333,6 +333,23 @@ namespace
         }
     };
 
+    // script node that ALSO declares schedule_on_start: the framework books the start cycle for it after its own
+    // start hook ran (node.cpp start_impl) - a start hook that books a later time must not lose the start cycle
+    struct HScriptS
+    {
+        static constexpr auto name              = "h_script_s";
+        static constexpr bool schedule_on_start = true;
+        static void start(NodeView node, Scalar<"lbl", Int> lbl, Scalar<"id", Int> id, NodeScheduler sched, State<Int> k)
+        {
+            HScript::start_common(node, id.value(), sched, k);
+        }
+        static void eval(NodeView node, Scalar<"lbl", Int> lbl, Scalar<"id", Int> id, NodeScheduler sched, State<Int> k,
+                         Out<TS<Int>> out)
+        {
+            HScript::eval(std::move(node), std::move(lbl), std::move(id), std::move(sched), std::move(k), std::move(out));
+        }
+    };
+
     // script node with one (active) input
     struct HScriptIn
     {
@@ -606,6 +623,7 @@ namespace
             if (n.args.size() >= 2) { env.ports.emplace(key, wire<HScriptIn>(w, lbl, num(0), arg(1))); }
             else { env.ports.emplace(key, wire<HScript>(w, lbl, num(0))); }
         }
+        else if (n.kind == "sscript") { env.ports.emplace(key, wire<HScriptS>(w, lbl, num(0))); }
         else if (n.kind == "sink") { wire<HSink>(w, lbl, arg(0)); }
         else if (n.kind == "thrower") { env.ports.emplace(key, wire<HThrower>(w, lbl, num(0), arg(1))); }
         else if (n.kind == "probe") { wire<HProbe>(w, lbl, arg(0)); }
